@@ -15,6 +15,10 @@ op  = R<n> W<n> C CW H                        API calls on the connection under 
                                               timeout after taking half of the bytes / no more)
       pg<t>                                   a record of type t that does not authenticate is injected towards the unit
       PR<n>                                   the peer's application reads (observed as `peer=<r>,…`, judged by the spec only)
+      WP<n>  WK                               a Write on another goroutine, cut in two at the transport write: WP = the call
+                                              up to there (`block`: it is inside the transport write, which makes it wait;
+                                              anything else: it returned before), WK = the transport lets that write go on (or
+                                              has been closed under it) and the Write returns (`none`: no Write was in flight)
 r   = ok | ok.<hex> | okerr.<hex>.<err> | <err>
 -/
 import Gotlcp.Oracle.Common
@@ -40,6 +44,8 @@ def parseOp (suite : String) (idx : Nat) (op : String) : Option (List Call) :=
   | ['C', 'W'] => some [.closeWrite]
   | ['H'] => some [.handshake false]
   | 'R' :: r => (num (String.ofList r)).map fun n => [.read n]
+  | 'W' :: 'P' :: r => (num (String.ofList r)).map fun n => [.writeStart (pattern idx n)]
+  | ['W', 'K'] => some [.writeEnd]
   | 'W' :: r => (num (String.ofList r)).map fun n => [.write (pattern idx n)]
   | 'p' :: 'd' :: r => (num (String.ofList r)).map fun n => [.arrive (.record ⟨23, vers, pattern idx n⟩)]
   | 'p' :: 'h' :: r => (num (String.ofList r)).map fun n => [.arrive (.record ⟨22, vers, pattern idx n⟩)]
@@ -94,7 +100,7 @@ def runModel (c : Conn) : List Call → List String
     let (c', r) := step c k
     match showRes (isReadCall k) r with
     | some s => s :: runModel c' ks
-    | none => runModel c' ks
+    | none => if k == .writeEnd then "none" :: runModel c' ks else runModel c' ks
 
 /-! ### the spec's view of a history -/
 open Spec.ConnAPI in
@@ -118,6 +124,8 @@ def specSteps (suite : String) : List (Nat × String) → List String → List S
         let k : Kind := if op == "C" then .close else if op == "CW" then .closeWrite else if op == "H" then .handshake
           else if op.startsWith "R" then .read else .write
         let ne := op != "R0"
+        -- no Write was in flight: nothing happened
+        if op == "WK" && o == "none" then .benign :: specSteps suite ops obs' else
         .call k ne out :: specSteps suite ops obs'
     else
       let st : Step :=
@@ -152,21 +160,26 @@ def specSteps (suite : String) : List (Nat × String) → List String → List S
 /-- does this side seal another record after a record it had sealed was lost at the transport?
 A failed `Write`, or a `CloseWrite` / `Close` whose close_notify the transport refused, has consumed
 a sequence number; `closeNotify` (Close / CloseWrite) and `sendAlert` (a `Read` that answers bad
-input with an alert: result `local.N`) still seal their alert with the next one — as crypto/tls
+input with an alert: result `local.N`; the alert itself is lost when the transport refuses writes at
+that moment) still seal their alert with the next one — as crypto/tls
 does; the peer then reports bad_record_mac instead of a truncated stream / the alert.  Reported as
 a note, see F39. -/
-def sealAfterLostRecord : List String → List String → Bool → Bool
-  | [], _, _ => false
-  | op :: ops, obs, lost =>
+def sealAfterLostRecord : List String → List String → Bool → Bool → Bool
+  | [], _, _, _ => false
+  | op :: ops, obs, lost, wf =>
     let isCall := op == "C" || op == "CW" || op == "H" || (op.startsWith "R" ) || (op.startsWith "W")
-    if op.startsWith "PR" || !isCall then sealAfterLostRecord ops obs lost else
+    -- the unit's transport refuses writes from `wf?` until `wfn`
+    if op.startsWith "wf" then sealAfterLostRecord ops obs lost (op != "wfn") else
+    if op.startsWith "PR" || !isCall then sealAfterLostRecord ops obs lost wf else
     match obs with
     | [] => false
     | o :: obs' =>
       let sendsAlert := op.startsWith "R" && ((o.splitOn "local.").length > 1)
       if (op == "C" || op == "CW" || sendsAlert) && lost then true
-      else sealAfterLostRecord ops obs' (lost || (op.startsWith "W" && o != "ok") ||
-        ((op == "C" || op == "CW") && (o == "timeout" || o == "perm")))
+      -- lost records: a failed Write, a refused close_notify, an alert the read path sealed while
+      -- the transport refused writes
+      else sealAfterLostRecord ops obs' (lost || (op.startsWith "W" && o != "ok" && o != "block" && o != "none") ||
+        ((op == "C" || op == "CW") && (o == "timeout" || o == "perm")) || (sendsAlert && wf)) wf
 
 def parseOps (s : String) : List String := if s == "-" || s == "" then [] else s.splitOn ","
 
@@ -205,7 +218,7 @@ def judgeAPI (ct ot : List String) : Option Verdict := do
   -- fail with a local alert
   let peerObs := parseOps ((kv ot "peer").getD "-")
   let partial_ := ops.any (· == "wfh")
-  let cnAfter := sealAfterLostRecord ops obs false
+  let cnAfter := sealAfterLostRecord ops obs false false
   let desyncSeen := peerObs.any (·.startsWith "local.")
   let desync := !partial_ && !cnAfter && desyncSeen
   let spec := if (kv ot "panic").isSome then some ("panic", "a call panicked")
